@@ -308,7 +308,8 @@ class SheetGen:
     def _goto_row(self):
         rng = self.rng
         edges = self._edges()
-        tg = [x for x in self.nodes if x["type"] != "no_op"]
+        # (a go_to into a row merged into an earlier row's node would enter that node at its first action: F-C02-d)
+        tg = [x for x in self.nodes if x["type"] != "no_op" and not x.get("merged")]
         if not tg:
             return self._node_row(rng.choice(ACTION_TYPES))
         if len(edges) > 1 and rng.random() < 0.5:
@@ -337,7 +338,7 @@ class SheetGen:
             self.nodes.append(info)
             self._last_group = info
             return
-        cands = [x for x in self.nodes if x["type"] != "no_op"]
+        cands = [x for x in self.nodes if x["type"] != "no_op" and not x.get("closed")]
         if not cands:
             return self._node_row(rng.choice(ACTION_TYPES))
         srcs = []
